@@ -92,6 +92,15 @@ def generate(rng: random.Random, tier: str) -> dict:
     ex = {"path": path, "tie": rng.choice([0, 2]), "hops": rng.choice([0, 1, 3])}
     if path in ("cancel_scope", "task_cancel"):
         ex["t"] = rng.choice([0, 1, 5, 30, 100, 300, 305, 1000, rng.randrange(0, 3 * tl)])
+    elif rng.random() < 0.3:
+        ex["early"] = rng.choice([0, 1, 3, 10, 60, 350])
+    if death and rng.random() < 0.5:
+        # the event stream dies early in the session, a slow POST is still in flight when the context is left
+        death["t"] = rng.choice([0, 1, 5, 20])
+        for m in msgs[-1:]:
+            m["post_latency"] = rng.choice([300, 600])
+            if m["mode"] in ("event_then_202", "event_then_exc", "event_then_status"):
+                m["event_at"] = min(m["event_at"], m["post_latency"])
     return {"v": 1, "timeout": timeout, "est": est, "msgs": msgs, "pushes": pushes, "chunk": chunk, "death": death, "exit": ex,
             "keepalive": True}
 
@@ -122,6 +131,8 @@ def systematic(tier: str):
 
 
 def simplify(scn):
+    if scn["exit"].get("early") is not None:
+        c = copy.deepcopy(scn); del c["exit"]["early"]; yield c
     if scn["chunk"]:
         c = copy.deepcopy(scn); c["chunk"] = None; yield c
     if scn["death"]:
@@ -372,8 +383,14 @@ def execute(scn: dict) -> dict:
                     obj = (JSONRPCNotification if m["notif"] else JSONRPCRequest).model_validate(d)
                     st["sent"].append({"k": k, "t_sent": sim.now()})
                     await write_stream.send(obj)
-                # every request may take up to `timeout` (serial sender)
-                await anyio.sleep(len(scn["msgs"]) * (timeout + 0.5) + 1.0)
+                if ex.get("early") is not None:
+                    # the body does not wait for its answers: it leaves `early` ticks after handing over the last message
+                    await anyio.sleep(ticks(ex["early"]))
+                    st["t_body_end"] = sim.now()
+                    sim.probe("body_left_with_request_in_flight")
+                else:
+                    # every request may take up to `timeout` (serial sender)
+                    await anyio.sleep(len(scn["msgs"]) * (timeout + 0.5) + 1.0)
                 tg.cancel_scope.cancel()
             if ex["path"] == "exception":
                 raise BodyError("body failed")
@@ -399,7 +416,13 @@ def execute(scn: dict) -> dict:
             finally:
                 st["t_left"] = sim.now()
                 sim.rec("body", "context-left", st.get("ctx_outcome"))
+                # census at the very instant the context has been left (not after things had time to die down by themselves)
+                me = asyncio.current_task()
+                st["tasks_at_left"] = sorted(t.get_name() + ":" + getattr(t.get_coro(), "__qualname__", "?") for t in asyncio.all_tasks()
+                                             if not t.done() and t is not me and t is not main_task)
+                st["posts_in_flight_at_left"] = [r["i"] for r in transport.requests if r["method"] == "POST" and not r.get("returned")]
 
+        main_task = asyncio.current_task()
         with patched((httpx, "AsyncClient", Client)):
             body_task = loop.create_task(body(), name="body")
             if "t" in ex:
@@ -477,8 +500,8 @@ def execute(scn: dict) -> dict:
         else:
             got.append((t, {"<non-message>": repr(m)[:80]}))
     posts = {p["k"]: p for p in st["posts"] if p["k"] is not None}
-    t_end = st.get("t_trigger") if st.get("t_trigger") is not None else st["t_left"]
-    interrupted = st.get("t_trigger") is not None or ex["path"] == "exception"
+    t_end = st.get("t_trigger") if st.get("t_trigger") is not None else st.get("t_body_end", st["t_left"])
+    interrupted = st.get("t_trigger") is not None or ex["path"] == "exception" or st.get("t_body_end") is not None
     accounted = set()
     live = st["entered"] and announced is not None and st.get("announce_eseq", 10 ** 9) < st["entered_eseq"]
     if live:
@@ -589,6 +612,11 @@ def execute(scn: dict) -> dict:
         if extra:
             V("invented", "unaccounted-message", f"messages on the read stream that nothing accounts for: {extra[:3]!r:.300}")
     # ---- 4. resources released ---------------------------------------------------------------------
+    if st.get("tasks_at_left"):
+        V("leak", "task-at-exit:" + ex["path"], f"tasks still running at the instant the context was left ({ex['path']}, establishment {kind}, "
+                                                f"event stream {'dead' if st['stream_dead_at'] is not None else 'open'}): {st['tasks_at_left']}")
+    if st.get("posts_in_flight_at_left"):
+        V("leak", "post-in-flight-at-exit:" + ex["path"], f"POST request(s) {st['posts_in_flight_at_left']} still being awaited when the context was left")
     if st.get("tasks_left"):
         V("leak", "task:" + ex["path"], f"tasks still alive after the context was left ({ex['path']}, establishment {kind}): {st['tasks_left']}")
     if st.get("clients_open"):
